@@ -888,6 +888,40 @@ def unpack_source(name, stmt):
     return (ds.value, pos[0]) if len(pos) == 1 else None
 
 
+def assume_none(expr, names):
+    """``expr`` specialised to the call in which the parameters ``names`` are None: the names become the constant None and
+    `c is None` / `c is not None` tests on constants and conditional expressions with a constant test are folded."""
+    e = _Subst({n: ast.Constant(value=None) for n in names}, False).visit(clone(expr))
+
+    class F(ast.NodeTransformer):
+        def visit_Compare(self, n):
+            self.generic_visit(n)
+            if len(n.ops) == 1 and isinstance(n.ops[0], (ast.Is, ast.IsNot)) and isinstance(n.left, ast.Constant) and isinstance(n.comparators[0], ast.Constant) \
+                    and (n.left.value is None or n.comparators[0].value is None):
+                same = n.left.value is None and n.comparators[0].value is None
+                return ast.copy_location(ast.Constant(value=same if isinstance(n.ops[0], ast.Is) else not same), n)
+            return n
+
+        def visit_UnaryOp(self, n):
+            self.generic_visit(n)
+            if isinstance(n.op, ast.Not) and isinstance(n.operand, ast.Constant) and isinstance(n.operand.value, bool):
+                return ast.copy_location(ast.Constant(value=not n.operand.value), n)
+            return n
+
+        def visit_IfExp(self, n):
+            self.generic_visit(n)
+            if isinstance(n.test, ast.Constant) and isinstance(n.test.value, bool):
+                return n.body if n.test.value else n.orelse
+            return n
+    for _ in range(6):
+        before = ast.dump(e)
+        e = F().visit(e)
+        if ast.dump(e) == before:
+            break
+    ast.fix_missing_locations(e)
+    return e
+
+
 def elementwise(node):
     """clone of ``node`` (a node of the analysed tree) in which every name bound by an enclosing comprehension / for loop that iterates
     a sequence S (directly, or as a member of zip / enumerate) is replaced by ``S[$k]`` - "the current element of S"."""
